@@ -135,6 +135,34 @@ fn one(ctx: &Ctx, rep: &mut Report, id: usize, cfg: Cfg, vc: ValueClass, pc: Pro
             Err(e) => rep.violation(&format!("C01 decode-refused {sig_cfg}"), &format!("honest proof does not decode: {e}"), replay.clone()),
         }
     }
+    // copies are the same objects: a statement / witness / proof copied with clone() or overwritten with clone_from()
+    // (onto an object of another shape) proves and verifies like the original
+    if id % 4 == 0 {
+        let other_cfg = Cfg::new(if cfg.n > 1 { cfg.n / 2 } else { 2 }, 1, 1, cfg.ext);
+        let other = Case::random(other_cfg, ValueClass::One, PromiseClass::AllZero, false, &mut rng);
+        let mut st2 = other.statement();
+        st2.clone_from(&case.statement());
+        let mut w2 = other.witness();
+        w2.clone_from(&case.witness());
+        let mut p2 = proof.clone();
+        p2.clone_from(&proof);
+        rep.count("copies_checked", 1);
+        let again = no_panic(|| RangeProof::prove_with_rng(&mut case.transcript(), &st2, &w2, &mut FaultRng::new(kind.clone())));
+        match again {
+            Ok(Ok(pa)) => {
+                if pa.to_bytes() != proof.to_bytes() {
+                    rep.violation(&format!("C01 copy-differs {sig_cfg}"), "proving over clone_from() copies of the statement and witness with the same RNG stream gives other proof bytes", replay.clone());
+                }
+            },
+            Ok(Err(e)) => rep.violation(&format!("C01 copy-differs {sig_cfg}"), &format!("the prover refuses clone_from() copies of a valid statement and witness: {e}"), replay.clone()),
+            Err(p) => rep.violation(&format!("C01 copy-differs {sig_cfg}"), &format!("the prover panics on clone_from() copies of a valid statement and witness: {p}"), replay.clone()),
+        }
+        match no_panic(|| verify_one(&case.transcript(), &st2, &p2, VerifyAction::RecoverAndVerify)) {
+            Ok(Ok(_)) => {},
+            Ok(Err(e)) => rep.violation(&format!("C01 copy-differs {sig_cfg}"), &format!("an honest proof is rejected under a clone_from() copy of its statement: {e}"), replay.clone()),
+            Err(p) => rep.violation(&format!("C01 copy-differs {sig_cfg}"), &format!("verifier panicked on a clone_from() copy of the statement: {p}"), replay.clone()),
+        }
+    }
     // the independent reference evaluation of the relation (at the challenges the library drew) vanishes too
     {
         let parts = Parts::of(&proof);
